@@ -248,9 +248,11 @@ func (e *Env) eval(x Expr) (TV, error) {
 		}
 		return TV{app("ite", c, a.t, b.t), a.ty}, nil
 	case *EField:
-		return e.evalField(x)
+		tv, err := e.evalField(x)
+		return e.typed(tv), err
 	case *EIndex:
-		return e.evalIndex(x)
+		tv, err := e.evalIndex(x)
+		return e.typed(tv), err
 	case *ESlice:
 		v, err := e.eval(x.X)
 		if err != nil {
@@ -991,4 +993,26 @@ func sortStrings(xs []string) {
 			xs[j], xs[j-1] = xs[j-1], xs[j]
 		}
 	}
+}
+
+// typed: every memory cell of an integer (or slice) type holds a value of that type. For ground
+// terms read from the heap in a contract this is asserted as a global fact.
+func (e *Env) typed(tv TV) TV {
+	if tv.ty == nil || tv.t == "" {
+		return tv
+	}
+	if !(isInt(tv.ty) || isSlice(tv.ty)) || tv.ty == tyInt {
+		return tv
+	}
+	if strings.Contains(tv.t, "q_") || strings.Contains(tv.t, "od_") || strings.Contains(tv.t, "fr_") {
+		return tv
+	}
+	key := "typed:" + tv.t
+	if !e.g.usedAxioms[key] {
+		e.g.usedAxioms[key] = true
+		if f := e.g.typeFacts(tv.t, tv.ty); f != "true" {
+			e.g.global(f)
+		}
+	}
+	return tv
 }
